@@ -36,7 +36,7 @@ RULE = ('corpus first, then random and (thorough) exhaustive small-scope cases o
 
 
 # ------------------------------------------------------------------ helpers
-def mk_field(fd):
+def mk_field(fd, px=None):
     lentil = C.import_lentil()
     if fd['tag'] == 0:
         data = np.array(complex(*fd['data']))
@@ -61,10 +61,40 @@ def mk_field(fd):
         data = P7.subclass_form(data, fd['sub'])
         _KEEP.append(('field data', data, P7.plain(data),
                       None if not isinstance(data, np.ma.MaskedArray) else np.array(np.ma.getmaskarray(data))))
-    return lentil.field.Field(data=data, offset=mk_offset(fd))
+    return lentil.field.Field(data=data, pixelscale=mk_px(px), offset=mk_offset(fd))
 
 
 _KEEP = []
+
+
+def mk_px(px):
+    """Field.pixelscale as a caller gives it: None, a number, a pair"""
+    if px is None:
+        return None
+    if isinstance(px, list):
+        return (float(Fraction(px[0])), float(Fraction(px[1])))
+    return float(Fraction(px))
+
+
+def enc_px(px):
+    if px is None:
+        return [0]
+    if isinstance(px, list):
+        return [2] + C.enc_q(float(Fraction(px[0]))) + C.enc_q(float(Fraction(px[1])))
+    return [1] + C.enc_q(float(Fraction(px)))
+
+
+def read_px(rd):
+    t = rd.z()
+    return None if t == 0 else (float(rd.q()) if t == 1 else [float(rd.q()), float(rd.q())])
+
+
+def canon_px(p):
+    if p is None:
+        return None
+    if isinstance(p, (tuple, list, np.ndarray)):
+        return [float(p[0]), float(p[1])]
+    return float(p)
 
 
 def mk_offset(fd):
@@ -337,7 +367,37 @@ def run_big(c):
     return {'mismatch': None}
 
 
+PXS = [None, None, '1', '1/2', ['1', '1'], ['1', '1/2'], '0.001']
+FLAGS = {'True': True, 'False': False, 'np.True_': np.True_, 'np.False_': np.False_, '1': 1, '0': 0}
+
+
+def rnd_api(rng):
+    """the public entry points around the kernels: merge(a, b, enforce_overlap), overlap(fields), _merge with
+    pixelscales (and the empty collection), array_extent with short shapes / parent_shape, Field attributes"""
+    t = rng.random()
+    if t < 0.3:
+        a, b = rnd_field(rng, offr=3, allow0=rng.random() < 0.2), rnd_field(rng, offr=3, allow0=rng.random() < 0.2)
+        pa = rng.choice(PXS)
+        pb = pa if rng.random() < 0.7 else rng.choice(PXS)
+        return {'op': 'mergepub', 'a': a, 'pa': pa, 'b': b, 'pb': pb, 'enforce': rng.choice(list(FLAGS))}
+    if t < 0.55:
+        k = rng.choice([0, 1, 2, 2, 3, 3, 4, 5])
+        return {'op': 'overlap', 'fs': [rnd_field(rng, maxn=3, offr=4) for _ in range(k)], 'seq': rng.choice(['list', 'tuple'])}
+    if t < 0.75:
+        k = rng.choice([0, 1, 2, 3])
+        p0 = rng.choice(PXS)
+        return {'op': 'mergepx', 'fs': [rnd_field(rng, maxn=3, offr=3, allow0=False) for _ in range(k)],
+                'px': [p0 if rng.random() < 0.8 else rng.choice(PXS) for _ in range(k)]}
+    if t < 0.9:
+        k = rng.choice([0, 1, 2, 2, 2, 3])
+        return {'op': 'aextp', 'shape': [rng.randint(1, 7) for _ in range(k)], 'shift': [rng.randint(-6, 6), rng.randint(-6, 6)],
+                'parent': None if rng.random() < 0.4 else [rng.randint(1, 9), rng.randint(1, 9)]}
+    return {'op': 'attrs', 'f': rnd_field(rng, maxn=4, offr=6)}
+
+
 def _generate(rng, tier):
+    for _ in range(200 if tier == 'quick' else 2000):
+        yield rnd_api(rng)
     # 0-d x 0-d at equal offsets, the two offsets given in every pair of argument forms
     for fa in ('list', 'tuple', 'ndarray', 'npint', 'none'):
         for fb in ('list', 'tuple', 'ndarray', 'npint_list', 'none'):
@@ -407,6 +467,8 @@ def _generate(rng, tier):
 
 
 def classify(c):
+    if c['op'] == 'mergepub':
+        return 'mergepub/' + c['enforce']
     if c['op'] == 'big':
         return 'big/' + c['kind']
     if c.get('sc') or c.get('osub') or any(f.get('sub') for f in fields_of(c)):
@@ -440,6 +502,18 @@ def encode(c):
             sub = encode(expand(c, call))
             out += [len(sub)] + sub
         return out
+    if op == 'mergepub':
+        return ([11] + enc_field(c['a']) + enc_px(c['pa']) + enc_field(c['b']) + enc_px(c['pb'])
+                + [1 if FLAGS[c['enforce']] else 0])
+    if op == 'overlap':
+        return [12, len(c['fs'])] + sum((enc_field(f) for f in c['fs']), [])
+    if op == 'mergepx':
+        return [13, len(c['fs'])] + sum((enc_field(f) + enc_px(p) for f, p in zip(c['fs'], c['px'])), [])
+    if op == 'aextp':
+        return ([14, len(c['shape'])] + c['shape'] + c['shift']
+                + ([0] if c['parent'] is None else [1] + c['parent']))
+    if op == 'attrs':
+        return [15] + enc_field(c['f'])
     if op == 'mul':
         return [1] + enc_field(c['a']) + enc_field(c['b'])
     if op == 'merge':
@@ -479,6 +553,15 @@ def decode(c, ints):
     if st == 1:
         return {'err': C.ERRNAMES[rd.z()]}
     op = c['op']
+    if op in ('mergepub', 'mergepx'):
+        f = read_field(rd)
+        return {'field': f, 'px': read_px(rd)}
+    if op == 'overlap':
+        return {'overlap': bool(rd.z())}
+    if op == 'aextp':
+        return {'extent': [rd.z() for _ in range(4)]}
+    if op == 'attrs':
+        return {'shape': rd.opt(lambda: [rd.z(), rd.z()]), 'size': rd.z(), 'extent': [rd.z() for _ in range(4)]}
     if op == 'mul':
         return rd.opt(lambda: read_field(rd)) or {'kind': 'empty'}
     if op == 'merge':
@@ -577,6 +660,21 @@ def _run_ops(c, mk=None):
     op = c['op']
     mk_field = mk or globals()['mk_field']
     try:
+        if op == 'mergepub':
+            r = F.merge(mk_field(c['a'], c['pa']), mk_field(c['b'], c['pb']), enforce_overlap=FLAGS[c['enforce']])
+            return {'field': impl_field_canon(r), 'px': canon_px(r.pixelscale)}
+        if op == 'overlap':
+            fs = [mk_field(f) for f in c['fs']]
+            return {'overlap': bool(F.overlap(tuple(fs) if c['seq'] == 'tuple' else fs))}
+        if op == 'mergepx':
+            r = F._merge([mk_field(f, p) for f, p in zip(c['fs'], c['px'])])
+            return {'field': impl_field_canon(r), 'px': canon_px(r.pixelscale)}
+        if op == 'aextp':
+            return {'extent': [int(x) for x in E.array_extent(tuple(c['shape']), tuple(c['shift']),
+                                                             None if c['parent'] is None else tuple(c['parent']))]}
+        if op == 'attrs':
+            f = mk_field(c['f'])
+            return {'shape': [int(x) for x in f.shape] or None, 'size': int(f.size), 'extent': [int(x) for x in f.extent]}
         if op == 'mul':
             return impl_field_canon(mk_field(c['a']) * mk_field(c['b']))
         if op == 'merge':
@@ -630,6 +728,12 @@ def compare(c, impl, model):
         return f'implementation {impl if "err" in impl else "returned a value"}, model {model if "err" in model else "returned a value"}'
     if 'err' in impl:
         return None if impl['err'] == model['err'] else f'error kinds differ: impl {impl["err"]} model {model["err"]}'
+    if op in ('mergepub', 'mergepx'):
+        if impl['px'] != model['px']:
+            return f'pixelscale of the result: {impl["px"]}, model {model["px"]}'
+        fs = [c['a'], c['b']] if op == 'mergepub' else c['fs']
+        box = canvas_box(fs)
+        return None if canvases_equal(canon_render(impl['field'], box), canon_render(model['field'], box)) else 'merged embeddings differ'
     if op == 'mul':
         if impl['kind'] != model['kind']:
             return f'impl kind {impl["kind"]} vs model {model["kind"]}'
@@ -689,8 +793,79 @@ def oracle_hist(c, impl):
     return None
 
 
+def groups_fixpoint(es):
+    """merge any two boxes that meet into their bounding box until none meet (the result does not depend on the order)"""
+    es = [list(e) for e in es]
+    changed = True
+    while changed:
+        changed = False
+        for i in range(len(es)):
+            for j in range(i + 1, len(es)):
+                x, y = es[i], es[j]
+                if x[0] <= y[1] and x[1] >= y[0] and x[2] <= y[3] and x[3] >= y[2]:
+                    es[i] = [min(x[0], y[0]), max(x[1], y[1]), min(x[2], y[2]), max(x[3], y[3])]
+                    del es[j]
+                    changed = True
+                    break
+            if changed:
+                break
+    return es
+
+
+def oracle_api(c, impl):
+    op = c['op']
+    if op in ('mergepub', 'mergepx'):
+        fs = [c['a'], c['b']] if op == 'mergepub' else c['fs']
+        pxs = [c['pa'], c['pb']] if op == 'mergepub' else c['px']
+        want_err = None
+        if op == 'mergepx' and not fs:
+            want_err = 'IndexError'
+        elif op == 'mergepub' and FLAGS[c['enforce']]:
+            x, y = extent_of(fs[0]), extent_of(fs[1])
+            if not (x[0] <= y[1] and x[1] >= y[0] and x[2] <= y[3] and x[3] >= y[2]):
+                want_err = 'ValueError'
+        if want_err is None and any(canon_px(mk_px(p)) != canon_px(mk_px(pxs[0])) or type(mk_px(p)) != type(mk_px(pxs[0])) for p in pxs):
+            want_err = 'ValueError'
+        if want_err:
+            return None if impl.get('err') == want_err else f'{op}: expected {want_err}, got {impl.get("err", "a result")}'
+        if 'err' in impl:
+            return f'{op} raised {impl["err"]}'
+        if impl['px'] != canon_px(mk_px(pxs[0])):
+            return f'{op}: the result has pixelscale {impl["px"]}, the first field has {pxs[0]}'
+        box = canvas_box(fs)
+        exp = sum_canvas([dict(f, kind='field') for f in fs], box)
+        return None if canvases_equal(canon_render(impl['field'], box), exp) else f'{op}: the result is not the sum of the embeddings'
+    if op == 'overlap':
+        if 'err' in impl:
+            return f'overlap raised {impl["err"]}'
+        es = [extent_of(f) for f in c['fs']]
+        if len(es) == 2:
+            x, y = es
+            want = x[0] <= y[1] and x[1] >= y[0] and x[2] <= y[3] and x[3] >= y[2]
+        else:
+            want = len(groups_fixpoint(es)) <= 1
+        return None if impl['overlap'] == want else f'overlap is {impl["overlap"]}, the extents say {want}'
+    if op == 'aextp':
+        if 'err' in impl:
+            return f'array_extent raised {impl["err"]}'
+        sr, sc = (c['shape'][0], c['shape'][1]) if len(c['shape']) >= 2 else (1, 1)
+        pr, pc = (c['parent'][0] // 2, c['parent'][1] // 2) if c['parent'] else (0, 0)
+        rmin, cmin = -(sr // 2) + c['shift'][0] + pr, -(sc // 2) + c['shift'][1] + pc
+        want = [rmin, rmin + sr - 1, cmin, cmin + sc - 1]
+        return None if impl['extent'] == want else f'array_extent gives {impl["extent"]}, expected {want}'
+    if op == 'attrs':
+        if 'err' in impl:
+            return f'Field attributes raised {impl["err"]}'
+        f = c['f']
+        want = {'shape': None if f['tag'] == 0 else list(shape_of(f)), 'size': size_of(f), 'extent': list(extent_of(f))}
+        return None if impl == want else f'Field attributes {impl}, expected {want}'
+    return None
+
+
 def oracle(c, impl):
     op = c['op']
+    if op in ('mergepub', 'overlap', 'mergepx', 'aextp', 'attrs'):
+        return oracle_api(c, impl)
     if op == 'hist':
         return oracle_hist(c, impl)
     if op == 'big':
